@@ -643,7 +643,8 @@ impl<'a, 'b> Gen<'a, 'b> {
         Some(match inp {
             Shape::Num => match self.u.below(12) {
                 0 => {
-                    let b = *self.u.pick(&["floor", "ceil", "round", "trunc", "fabs", "sqrt"]);
+                    // sqrt excluded while the finding sqrt-not-correctly-rounded is open
+                    let b = *self.u.pick(&["floor", "ceil", "round", "trunc", "fabs"]);
                     self.op(b);
                     e1(b, Shape::Num)
                 }
